@@ -96,6 +96,38 @@ impl Monitor for C14 {
             }
             out.bucket("source_with_names_over_255_bytes");
         }
+        // names are copied byte for byte: white space at either end, names of blanks only, empty names
+        if rng.chance(1, 3) {
+            let deco = |rng: &mut Rng, s: &str| -> String {
+                match rng.below(6) {
+                    0 => format!(" {s}"),
+                    1 => format!("{s} "),
+                    2 => format!("\t{s}  "),
+                    3 => "   ".to_string(),
+                    4 => format!("\u{a0}{s}\u{2003}"),
+                    _ => String::new(),
+                }
+            };
+            for t in &mut facts.terms {
+                if rng.chance(1, 3) {
+                    let n = deco(&mut rng, &t.name);
+                    if n.len() <= 255 {
+                        t.name = n;
+                    }
+                }
+            }
+            for k in 0..3 {
+                for r in &mut facts.recs[k] {
+                    if rng.chance(1, 3) {
+                        let n = deco(&mut rng, &r.name);
+                        if n.len() <= 255 {
+                            r.name = n;
+                        }
+                    }
+                }
+            }
+            out.bucket("source_with_white_space_at_the_ends_of_names");
+        }
         // make sure there are modifier branches with annotations on roots and descendants
         let m0 = Model::new(&facts, defaults);
         if defaults && m0.modifier_roots.is_empty() {
